@@ -251,6 +251,11 @@ func rangeIter(
 	return func(
 		env *object.Env, kwargs *object.PanObj, args ...object.PanObject,
 	) object.PanObject {
+		// error raised by `_incBy` in the previous step
+		if err, ok := current.(*object.PanErr); ok {
+			return err
+		}
+
 		reached, err := reachesStop(r, current)
 		if err != nil {
 			return err
